@@ -93,7 +93,11 @@ def judge(family, case, rec):
         sub = {"p": p, "K": K, "size": size, "replace": replace, "random_state": rs}
         rec.case(family, sub, bool(K >= 1 and (bad_tuple or hi >= 1)), key=(p, K, size, replace, rs))
         try:
-            res = gens.intervention_targets(p, K, size, replace=replace, random_state=rs)
+            if rs % 4 == 0 and not bad_tuple:
+                sz = tuple(np.int64(v) for v in size) if isinstance(size, tuple) else np.int64(size)
+                res = gens.intervention_targets(np.int64(p), np.int64(K), sz, replace=replace, random_state=rs)
+            else:
+                res = gens.intervention_targets(p, K, size, replace=replace, random_state=rs)
             raised = None
         except ValueError as e:
             res, raised = None, e
